@@ -293,7 +293,17 @@ def m_entry_or_insert(ctx, cty, a):
 
 @model_re(r"std::collections::(btree_map|hash_map)::Entry::or_default$")
 def m_entry_or_default(ctx, cty, a):
-    raise Inconclusive("Entry::or_default")
+    e = a[0]
+    if e.variant == 1:
+        return Ref(e.fields[1], 1, True)
+    from .models_core import default_for
+    gs = [g for g in cty.a[-2][1] if g.kind != "lit"]
+    if len(gs) < 2:
+        raise Inconclusive("Entry::or_default without value type")
+    m, key = e.fields
+    map_insert(ctx, m, key, default_for(ctx, gs[1]))
+    i = map_find(ctx, m, key)
+    return Ref(m.entries[i], 1, True)
 
 
 # sets: set algebra used by harness oracles
